@@ -104,8 +104,6 @@ var c04ChanTypes = []uint64{
 	c04Tweakless | c04Anchors | c04ZeroFee | c04Lease, // script-enforced lease
 }
 
-const c04MaxSat = int64(2_100_000_000_000_000)
-
 // c04SpecRevLog is the post-condition of C04-K2 as a function: the log entry
 // fetchRevocationLog returns after putRevocationLog(commit, ours, theirs,
 // noAmt). ok=false when the state is refused (an index does not fit).
@@ -189,23 +187,46 @@ func c04SameOut(a *wire.TxOut, b *wire.TxOut) bool {
 	return a != nil && b != nil && a.Value == b.Value && bytes.Equal(a.PkScript, b.PkScript)
 }
 
+// c04Msat: a millisatoshi amount = 32-bit satoshi part * 1000 + sub-satoshi
+// remainder.
+func c04Msat(name string) uint64 {
+	rem := vU16(name + "SubSat")
+	vAssume(rem < 1000)
+	return uint64(vU32(name+"Sat"))*1000 + uint64(rem)
+}
+
 // c04Breach: nHtlc HTLCs on the revoked remote commitment.
+//
+// Shape (concrete case splits, pinned per shard in spec.json): channel type,
+// who funded the channel, direction of each HTLC, and a value pattern that
+// fixes which outputs exist and their BIP-69 order (the order is decided by
+// symbolic amounts; leaving it free multiplies the paths by the number of
+// permutations). Inside a pattern every amount, fee rate, dust limit, delay,
+// expiry, hash, key and height is symbolic.
+//
+//	pattern 0  all outputs present, to_local > to_remote > htlc0 >= htlc1
+//	pattern 1  all outputs present, to_local < to_remote < htlc0 <= htlc1
+//	pattern 2  to_local trimmed (their balance below their dust limit)
+//	pattern 3  to_remote trimmed (our balance below their dust limit)
+//	pattern 4  every HTLC is dust
+//	pattern 5  no restriction (any presence, any order)
 func c04Breach(nHtlc int) {
 	vmConfig()
 	vOverflow("github.com/lightningnetwork/lnd/lnwallet.c04RefSecondLevelFee")
 
 	ctRaw := c04ChanTypes[vChoice("chanType", len(c04ChanTypes))]
 	ct := channeldb.ChannelType(ctRaw)
-	isInit := vBool("isInitiator")
-	withSpendTx := vBool("withSpendTx")
-	noAmt := vBool("noAmtData")
+	isInit := vChoice("isInitiator", 2) == 1
+	pattern := vChoice("pattern", 6)
 
 	key := func(n string) keychain.KeyDescriptor { return keychain.KeyDescriptor{PubKey: vmKey(n)} }
-	dustLocal, dustRemote := vI64("localDustLimit"), vI64("remoteDustLimit")
-	// BOLT-2: dust_limit_satoshis >= 354; nothing exceeds the money supply.
-	vAssume(dustLocal >= 354 && dustLocal <= c04MaxSat && dustRemote >= 354 && dustRemote <= c04MaxSat)
-	capacity := vI64("capacity")
-	vAssume(capacity > 0 && capacity <= c04MaxSat)
+	// Satoshi-valued inputs are 32-bit: 2^32-1 sat = 42.9 BTC, above the
+	// largest channel lnd opens (10 BTC, funding.MaxBtcFundingAmountWumbo).
+	dustLocal, dustRemote := int64(vU32("localDustLimit")), int64(vU32("remoteDustLimit"))
+	// BOLT-2: dust_limit_satoshis >= 354.
+	vAssume(dustLocal >= 354 && dustRemote >= 354)
+	capacity := int64(vU32("capacity"))
+	vAssume(capacity > 0)
 
 	store := &c04Store{}
 	sha := &c04ShaStore{}
@@ -234,7 +255,6 @@ func c04Breach(nHtlc int) {
 		RevocationStore: sha,
 	}
 	copy(cs.FundingOutpoint.Hash[:], vBytes("fundingTxid", 32))
-	// a funding outpoint is never the null outpoint of a coinbase
 	cs.FundingOutpoint.Index = uint32(vU16("fundingIndex"))
 
 	// the per-commitment secret of the revoked height
@@ -249,29 +269,23 @@ func c04Breach(nHtlc int) {
 	height := vU64("revokedHeight")
 	vAssume(height <= 1<<48-1) // C04-K1: heights above are refused by SetStateNumHint
 
-	// ---------------- builder side ----------------
-	_, commitPoint := btcec.PrivKeyFromBytes(secretHash[:])
-	keyRing := DeriveCommitmentKeys(commitPoint, lntypes.Remote, ct, &cs.LocalChanCfg, &cs.RemoteChanCfg)
-
 	feeRaw := vU64("feePerKw")
 	vAssume(feeRaw >= 253 && feeRaw <= 0xffffffff) // fee floor; feerate_per_kw is a u32
 	feePerKw := chainfee.SatPerKWeight(feeRaw)
-	ourBal, theirBal := vU64("ourBalanceMsat"), vU64("theirBalanceMsat")
+	ourBal, theirBal := c04Msat("ourBalance"), c04Msat("theirBalance")
 	total := ourBal + theirBal
-	vAssume(ourBal <= uint64(capacity)*1000 && theirBal <= uint64(capacity)*1000)
 
 	var htlcs []c04Htlc
 	view := &HtlcView{FeePerKw: feePerKw}
 	for i := 0; i < nHtlc; i++ {
 		sfx := string(rune('0' + i))
 		h := c04Htlc{
-			incoming: vBool("htlcIncoming" + sfx),
-			amt:      lnwire.MilliSatoshi(vU64("htlcMsat" + sfx)),
+			incoming: vChoice("htlcIncoming"+sfx, 2) == 1,
+			amt:      lnwire.MilliSatoshi(c04Msat("htlc" + sfx)),
 			timeout:  vU32("htlcExpiry" + sfx),
 			htlcIdx:  vU64("htlcIndex" + sfx),
 		}
 		copy(h.rHash[:], vBytes("htlcHash"+sfx, 32))
-		vAssume(uint64(h.amt) <= uint64(capacity)*1000)
 		total += uint64(h.amt)
 		htlcs = append(htlcs, h)
 		pd := &paymentDescriptor{
@@ -288,8 +302,83 @@ func c04Breach(nHtlc int) {
 			view.Updates.Local = append(view.Updates.Local, pd)
 		}
 	}
-	// channel invariant: balances + HTLCs never exceed the capacity
+	// channel invariant: balances + HTLCs (+ the two anchors, which the funder
+	// pays for out of its balance) never exceed the capacity
+	if ctRaw&c04Anchors != 0 {
+		total += 2 * 330 * 1000
+	}
 	vAssume(total <= uint64(capacity)*1000)
+
+	// ---- value pattern (see the function comment) ----
+	{
+		// upper bounds of the commitment fee (weight <= 1124 + 2*172) and of
+		// a second-level fee (weight <= 706)
+		slack := feeRaw*3 + 1
+		dust := uint64(dustRemote)
+		ourSat, theirSat := ourBal/1000, theirBal/1000
+		hs := make([]uint64, nHtlc)
+		for i := range hs {
+			hs[i] = uint64(htlcs[i].amt) / 1000
+		}
+		desc := func(vals ...uint64) { // vals[0] > vals[1] > ..., last well above dust
+			for i := 0; i+1 < len(vals); i++ {
+				vAssume(vals[i] >= vals[i+1]+slack)
+			}
+			vAssume(vals[len(vals)-1] >= dust+slack)
+		}
+		htlcsDesc := func(floor bool) {
+			for i := 0; i+1 < nHtlc; i++ {
+				vAssume(hs[i] >= hs[i+1])
+			}
+			if floor && nHtlc > 0 {
+				vAssume(hs[nHtlc-1] >= dust+slack)
+			}
+		}
+		switch pattern {
+		case 0:
+			if nHtlc > 0 {
+				desc(theirSat, ourSat, hs[0])
+				htlcsDesc(true)
+			} else {
+				desc(theirSat, ourSat)
+			}
+		case 1:
+			if nHtlc > 0 {
+				desc(hs[0], ourSat, theirSat)
+				for i := 0; i+1 < nHtlc; i++ {
+					vAssume(hs[i] <= hs[i+1])
+				}
+			} else {
+				desc(ourSat, theirSat)
+			}
+		case 2:
+			vAssume(theirSat < dust)
+			if nHtlc > 0 {
+				desc(ourSat, hs[0])
+				htlcsDesc(true)
+			} else {
+				desc(ourSat)
+			}
+		case 3:
+			vAssume(ourSat < dust)
+			if nHtlc > 0 {
+				desc(theirSat, hs[0])
+				htlcsDesc(true)
+			} else {
+				desc(theirSat)
+			}
+		case 4:
+			vAssume(nHtlc > 0)
+			desc(theirSat, ourSat)
+			for i := range hs {
+				vAssume(hs[i] < dust)
+			}
+		}
+	}
+
+	// ---------------- builder side ----------------
+	_, commitPoint := btcec.PrivKeyFromBytes(secretHash[:])
+	keyRing := DeriveCommitmentKeys(commitPoint, lntypes.Remote, ct, &cs.LocalChanCfg, &cs.RemoteChanCfg)
 
 	cb := &CommitmentBuilder{chanState: cs}
 	copy(cb.obfuscator[:], vBytes("obfuscator", StateHintSize))
@@ -299,6 +388,7 @@ func c04Breach(nHtlc int) {
 	)
 	if err != nil {
 		// not a state the channel can be in (e.g. no output at all)
+		vAssert(pattern >= 2, "a commitment with both balances and all HTLCs well above dust is built")
 		vReach("builder-refused")
 		return
 	}
@@ -332,42 +422,13 @@ func c04Breach(nHtlc int) {
 	if err != nil {
 		return
 	}
-	rl, ok := c04SpecRevLog(disk, ourIdx, theirIdx, noAmt)
-	vAssert(ok, "the revoked state is recorded (indexes fit)")
-	if !ok {
-		return
-	}
-	store.height, store.log = height, rl
+	hasOurs, hasTheirs := ourIdx != channeldb.OutputIndexEmpty, theirIdx != channeldb.OutputIndexEmpty
 	sha.height, sha.secret = height, secretHash
 
-	// ---------------- punisher side ----------------
-	breachHeight := vU32("breachHeight")
-	var spendTx *wire.MsgTx
-	if withSpendTx {
-		spendTx = tx.Copy()
-	}
-	br, err := NewBreachRetribution(cs, height, breachHeight, spendTx, fn.None[AuxLeafStore](), fn.None[AuxContractResolver]())
-
-	hasOurs, hasTheirs := ourIdx != channeldb.OutputIndexEmpty, theirIdx != channeldb.OutputIndexEmpty
-	if !withSpendTx && noAmt && (hasOurs || hasTheirs) {
-		// documented: without the breach tx and without stored balances
-		// the amounts are unknown
-		vAssert(errors.Is(err, ErrRevLogDataMissing), "missing amount data is reported as ErrRevLogDataMissing")
-		vReach("amount-data-missing")
-		return
-	}
-	vAssert(err == nil && br != nil, "a breach retribution is built for the revoked state")
-	if err != nil || br == nil {
-		return
-	}
-
-	// ---------------- oracle ----------------
+	// ---------------- expectations (BOLT-3, remote commitment) ----------------
 	txid := tx.TxHash()
-	vAssert(br.BreachTxHash == txid, "retribution names the txid of the revoked transaction")
-	vAssert(br.RevokedStateNum == height && br.BreachHeight == breachHeight, "state number / breach height recorded")
 	vAssert(GetStateNumHint(tx, cb.obfuscator) == height, "the broadcast transaction's state hint decodes to the revoked height")
 
-	// BOLT-3 keys of the REMOTE commitment, derived by the harness.
 	lc, rc := &cs.LocalChanCfg, &cs.RemoteChanCfg
 	P := commitPoint
 	theirDelayed := input.TweakPubKey(rc.DelayBasePoint.PubKey, P)
@@ -383,7 +444,6 @@ func c04Breach(nHtlc int) {
 	anchors := ctRaw&c04Anchors != 0
 	lease := ctRaw&c04Lease != 0
 
-	// expected to_local (theirs) and to_remote (ours) scripts
 	var wantTheirWS []byte
 	if lease && theyInit {
 		wantTheirWS, _ = input.LeaseCommitScriptToSelf(theirDelayed, revKey, theirCsv, cs.ThawHeight)
@@ -412,60 +472,21 @@ func c04Breach(nHtlc int) {
 			c04P2WSH(input.CommitScriptAnchor(rc.MultiSigKey.PubKey)),
 			c04P2WSH(input.CommitScriptAnchor(lc.MultiSigKey.PubKey)))
 	}
-	wantSecondWS := func() []byte {
-		var ws []byte
-		if lease && theyInit {
-			ws, _ = input.LeaseSecondLevelHtlcScript(revKey, theirDelayed, theirCsv, cs.ThawHeight)
-		} else {
-			ws, _ = input.SecondLevelHtlcScript(revKey, theirDelayed, theirCsv)
-		}
-		return ws
-	}()
-
-	vAssert(br.RemoteDelay == theirCsv, "RemoteDelay = the to_self_delay imposed on the remote party")
-	vAssert(br.LocalDelay == wantOurDelay, "LocalDelay = 1 for anchor/lease to_remote, 0 otherwise")
-	vAssert(br.ChanType == ct && br.KeyRing != nil, "channel type and key ring recorded")
-
-	claimed := make([]int, len(tx.TxOut)) // how many descriptors claim each output
-	claim := func(op wire.OutPoint, what string) *wire.TxOut {
-		vAssert(op.Hash == txid, what+": outpoint names the revoked transaction")
-		vAssert(int(op.Index) < len(tx.TxOut), what+": outpoint index is an output of the revoked transaction")
-		if int(op.Index) >= len(tx.TxOut) {
-			return nil
-		}
-		claimed[op.Index]++
-		return tx.TxOut[op.Index]
+	var wantSecondWS []byte
+	if lease && theyInit {
+		wantSecondWS, _ = input.LeaseSecondLevelHtlcScript(revKey, theirDelayed, theirCsv, cs.ThawHeight)
+	} else {
+		wantSecondWS, _ = input.SecondLevelHtlcScript(revKey, theirDelayed, theirCsv)
+	}
+	wantTweak := []byte(nil)
+	if ctRaw&c04Tweakless == 0 {
+		wantTweak = input.SingleTweakBytes(P, lc.PaymentBasePoint.PubKey)
 	}
 
-	// to_local of the cheater: swept with the revocation key
-	if d := br.RemoteOutputSignDesc; d != nil {
-		out := claim(br.RemoteOutpoint, "to_local")
-		vAssert(c04SameOut(d.Output, out), "to_local: recorded script and amount = the output at the recorded index")
-		vAssert(bytes.Equal(d.Output.PkScript, wantTheirPk) && bytes.Equal(d.WitnessScript, wantTheirWS),
-			"to_local: script = BOLT-3 to_local(their delayed key, revocation key, their to_self_delay[, lease])")
-		vAssert(vmKeyEq(d.KeyDesc.PubKey, lc.RevocationBasePoint.PubKey) && d.DoubleTweak != nil && d.SingleTweak == nil,
-			"to_local: signed with our revocation base point + revealed secret")
-		vReach("to-local-punished")
-	}
-	// our own to_remote
-	if d := br.LocalOutputSignDesc; d != nil {
-		out := claim(br.LocalOutpoint, "to_remote")
-		vAssert(c04SameOut(d.Output, out), "to_remote: recorded script and amount = the output at the recorded index")
-		vAssert(bytes.Equal(d.Output.PkScript, wantOurPk) && bytes.Equal(d.WitnessScript, wantOurWS),
-			"to_remote: script = BOLT-3 to_remote(our payment key[, lease])")
-		wantTweak := []byte(nil)
-		if ctRaw&c04Tweakless == 0 {
-			wantTweak = input.SingleTweakBytes(P, lc.PaymentBasePoint.PubKey)
-		}
-		vAssert(vmKeyEq(d.KeyDesc.PubKey, lc.PaymentBasePoint.PubKey) && bytes.Equal(d.SingleTweak, wantTweak) &&
-			(d.SingleTweak == nil) == (wantTweak == nil) && d.DoubleTweak == nil,
-			"to_remote: signed with our payment base point (tweaked unless static_remotekey)")
-		vReach("to-remote-swept")
-	}
-
-	// HTLCs: offered by them = incoming to us. Expected in log order
-	// (outgoing first, then incoming), dust trimmed by BOLT-3.
+	// HTLCs expected in log order (outgoing first, then incoming), dust
+	// trimmed by the BOLT-3 rule. Offered by them = incoming to us.
 	var want []c04Htlc
+	var wantWS [][]byte
 	for pass := 0; pass < 2; pass++ {
 		for _, h := range htlcs {
 			if h.incoming != (pass == 1) {
@@ -475,63 +496,141 @@ func c04Breach(nHtlc int) {
 			if uint64(h.amt)/1000 < uint64(dustRemote)+fee {
 				continue
 			}
+			var ws []byte
+			if h.incoming {
+				ws, _ = input.SenderHTLCScript(theirHtlc, ourHtlc, revKey, h.rHash[:], anchors)
+			} else {
+				ws, _ = input.ReceiverHTLCScript(h.timeout, ourHtlc, theirHtlc, revKey, h.rHash[:], anchors)
+			}
 			want = append(want, h)
+			wantWS = append(wantWS, ws)
 		}
 	}
-	vAssert(len(br.HtlcRetributions) == len(want), "one HTLC retribution per non-dust HTLC of the revoked commitment")
-	if len(br.HtlcRetributions) != len(want) {
-		return
-	}
-	for i := range br.HtlcRetributions {
-		r, h := &br.HtlcRetributions[i], want[i]
-		out := claim(r.OutPoint, "htlc")
-		var ws []byte
-		if h.incoming {
-			ws, _ = input.SenderHTLCScript(theirHtlc, ourHtlc, revKey, h.rHash[:], anchors)
-		} else {
-			ws, _ = input.ReceiverHTLCScript(h.timeout, ourHtlc, theirHtlc, revKey, h.rHash[:], anchors)
+
+	breachHeight := vU32("breachHeight")
+
+	// ---------------- punisher side: four ways to call it ----------------
+	for variant := 0; variant < 4; variant++ {
+		withSpendTx, noAmt := variant&1 == 0, variant&2 != 0
+
+		rl, ok := c04SpecRevLog(disk, ourIdx, theirIdx, noAmt)
+		vAssert(ok, "the revoked state is recorded (indexes fit)")
+		if !ok {
+			return
 		}
-		vAssert(r.IsIncoming == h.incoming, "htlc: direction recorded")
-		vAssert(c04SameOut(r.SignDesc.Output, out), "htlc: recorded script and amount = the output at the recorded index")
-		vAssert(r.SignDesc.Output != nil && r.SignDesc.Output.Value == int64(uint64(h.amt)/1000),
-			"htlc: amount = the HTLC's amount in whole satoshi")
-		vAssert(r.SignDesc.Output != nil && bytes.Equal(r.SignDesc.Output.PkScript, c04P2WSH(ws, nil)) &&
-			bytes.Equal(r.SignDesc.WitnessScript, ws),
-			"htlc: script = BOLT-3 offered/received HTLC(their/our htlc keys, revocation key, hash[, cltv]) by direction")
-		vAssert(vmKeyEq(r.SignDesc.KeyDesc.PubKey, lc.RevocationBasePoint.PubKey) && r.SignDesc.DoubleTweak != nil,
-			"htlc: signed with our revocation base point + revealed secret")
-		vAssert(bytes.Equal(r.SecondLevelWitnessScript, wantSecondWS),
-			"htlc: second-level script = BOLT-3 second level(revocation key, their delayed key, their to_self_delay[, lease])")
-		if h.incoming {
-			vReach("offered-htlc-punished")
+		store.height, store.log = height, rl
+
+		var spendTx *wire.MsgTx
+		if withSpendTx {
+			spendTx = tx.Copy()
+		}
+		br, err := NewBreachRetribution(cs, height, breachHeight, spendTx, fn.None[AuxLeafStore](), fn.None[AuxContractResolver]())
+
+		if !withSpendTx && noAmt && (hasOurs || hasTheirs) {
+			// documented: without the breach tx and without stored
+			// balances the amounts are unknown
+			vAssert(errors.Is(err, ErrRevLogDataMissing), "missing amount data is reported as ErrRevLogDataMissing")
+			vReach("amount-data-missing")
+			continue
+		}
+		vAssert(err == nil && br != nil, "a breach retribution is built for the revoked state")
+		if err != nil || br == nil {
+			return
+		}
+
+		// Conditions are grouped per descriptor (one solver obligation per
+		// group; the violated group names the descriptor).
+		vAssert(br.BreachTxHash == txid && br.RevokedStateNum == height && br.BreachHeight == breachHeight &&
+			br.ChanType == ct && br.KeyRing != nil,
+			"retribution names the txid of the revoked transaction, the state number, breach height, channel type")
+		vAssert(br.RemoteDelay == theirCsv && br.LocalDelay == wantOurDelay,
+			"RemoteDelay = to_self_delay imposed on the remote party; LocalDelay = 1 for anchor/lease to_remote, 0 otherwise")
+
+		claimed := make([]int, len(tx.TxOut)) // how many descriptors claim each output
+		claim := func(op wire.OutPoint) (*wire.TxOut, bool) {
+			if op.Hash != txid || int(op.Index) >= len(tx.TxOut) {
+				return nil, false
+			}
+			claimed[op.Index]++
+			return tx.TxOut[op.Index], true
+		}
+
+		// to_local of the cheater: swept with the revocation key
+		if d := br.RemoteOutputSignDesc; d != nil {
+			out, ok := claim(br.RemoteOutpoint)
+			vAssert(ok && c04SameOut(d.Output, out),
+				"to_local: outpoint is an output of the revoked tx and the recorded script and amount are that output's")
+			vAssert(d.Output != nil && bytes.Equal(d.Output.PkScript, wantTheirPk) && bytes.Equal(d.WitnessScript, wantTheirWS) &&
+				vmKeyEq(d.KeyDesc.PubKey, lc.RevocationBasePoint.PubKey) && d.DoubleTweak != nil && d.SingleTweak == nil,
+				"to_local: script = BOLT-3 to_local(their delayed key, revocation key, their to_self_delay[, lease]), signed with our revocation base point + revealed secret")
+			vReach("to-local-punished")
+		}
+		// our own to_remote
+		if d := br.LocalOutputSignDesc; d != nil {
+			out, ok := claim(br.LocalOutpoint)
+			vAssert(ok && c04SameOut(d.Output, out),
+				"to_remote: outpoint is an output of the revoked tx and the recorded script and amount are that output's")
+			vAssert(d.Output != nil && bytes.Equal(d.Output.PkScript, wantOurPk) && bytes.Equal(d.WitnessScript, wantOurWS) &&
+				vmKeyEq(d.KeyDesc.PubKey, lc.PaymentBasePoint.PubKey) && bytes.Equal(d.SingleTweak, wantTweak) &&
+				(d.SingleTweak == nil) == (wantTweak == nil) && d.DoubleTweak == nil,
+				"to_remote: script = BOLT-3 to_remote(our payment key[, lease]), signed with our payment base point (tweaked unless static_remotekey)")
+			vReach("to-remote-swept")
+		}
+
+		vAssert(len(br.HtlcRetributions) == len(want), "one HTLC retribution per non-dust HTLC of the revoked commitment")
+		if len(br.HtlcRetributions) != len(want) {
+			return
+		}
+		for i := range br.HtlcRetributions {
+			r, h, ws := &br.HtlcRetributions[i], want[i], wantWS[i]
+			out, ok := claim(r.OutPoint)
+			vAssert(ok && c04SameOut(r.SignDesc.Output, out) && r.SignDesc.Output.Value == int64(uint64(h.amt)/1000),
+				"htlc: outpoint is an output of the revoked tx, recorded script and amount are that output's, amount = the HTLC's whole satoshis")
+			vAssert(r.IsIncoming == h.incoming && r.SignDesc.Output != nil &&
+				bytes.Equal(r.SignDesc.Output.PkScript, c04P2WSH(ws, nil)) && bytes.Equal(r.SignDesc.WitnessScript, ws) &&
+				vmKeyEq(r.SignDesc.KeyDesc.PubKey, lc.RevocationBasePoint.PubKey) && r.SignDesc.DoubleTweak != nil,
+				"htlc: script = BOLT-3 offered/received HTLC(their/our htlc keys, revocation key, hash[, cltv]) by direction, signed with our revocation base point + revealed secret")
+			vAssert(bytes.Equal(r.SecondLevelWitnessScript, wantSecondWS),
+				"htlc: second-level script = BOLT-3 second level(revocation key, their delayed key, their to_self_delay[, lease])")
+			if h.incoming {
+				vReach("offered-htlc-punished")
+			} else {
+				vReach("received-htlc-punished")
+			}
+		}
+
+		// completeness: every output that is not an anchor is claimed exactly
+		// once (written without symbolic branches)
+		for j, out := range tx.TxOut {
+			isAnchor := false
+			for _, a := range anchorPks {
+				sameScript := bytes.Equal(out.PkScript, a)
+				isAnchor = isAnchor || (out.Value == int64(AnchorSize) && sameScript)
+			}
+			vAssert((isAnchor && claimed[j] == 0) || (!isAnchor && claimed[j] == 1),
+				"every non-anchor output of the revoked transaction is punished exactly once (anchors: never)")
+		}
+		if anchors {
+			vReach("anchor-type")
+		}
+		if withSpendTx {
+			vReach("with-spend-tx")
 		} else {
-			vReach("received-htlc-punished")
+			vReach("from-log-balances")
 		}
 	}
 	if len(want) == 2 && want[0].rHash == want[1].rHash && want[0].amt/1000 == want[1].amt/1000 &&
 		want[0].incoming == want[1].incoming {
 		vReach("duplicate-htlcs")
 	}
-
-	// completeness: every output that is not an anchor is claimed exactly once
-	for j, out := range tx.TxOut {
-		isAnchor := false
-		for _, a := range anchorPks {
-			if out.Value == int64(AnchorSize) && bytes.Equal(out.PkScript, a) {
-				isAnchor = true
-			}
-		}
-		if isAnchor {
-			vAssert(claimed[j] == 0, "anchor outputs are not claimed by the retribution")
-			vReach("anchor")
-			continue
-		}
-		vAssert(claimed[j] == 1, "every non-anchor output of the revoked transaction is punished exactly once")
+	if len(want) < nHtlc {
+		vReach("dust-htlc-trimmed")
 	}
-	if withSpendTx {
-		vReach("with-spend-tx")
-	} else {
-		vReach("from-log-balances")
+	if !hasTheirs {
+		vReach("to-local-trimmed")
+	}
+	if !hasOurs {
+		vReach("to-remote-trimmed")
 	}
 }
 
